@@ -227,16 +227,16 @@ section chain
 variable {cfg : Cfg} {fwd : Fwd} (hf : JOK fwd)
 include hf
 
-theorem removeModule_J {s : State} (h : J s) (u : Nat) : J (removeModule cfg fwd s u) := by
-  unfold removeModule
-  cases hm : s.find u with
-  | none => exact h
-  | some m => exact dropMod_J (hf _ _ (removePrep_J h u m hm)) u
-
 theorem logAt_J {s : State} (h : J s) (lvl : Nat) : J (logAt cfg fwd lvl s) := by
   unfold logAt; split
   · exact hf _ _ h
   · exact h
+
+theorem removeModule_J {s : State} (h : J s) (u : Nat) : J (removeModule cfg fwd s u) := by
+  unfold removeModule
+  cases hm : s.find u with
+  | none => exact h
+  | some m => exact dropMod_J (hf _ _ (logAt_J hf (removePrep_J h u m hm) 10)) u
 
 theorem failedMsg_J {s : State} (h : J s) (d : Int) (f : Frame) : J (failedMsg cfg fwd s d f) := by
   unfold failedMsg; split
@@ -314,15 +314,29 @@ theorem sendAck_J {s : State} (h : J s) (u : Nat) : J (sendAck cfg s u) := by
   | none => exact h
   | some m => exact toLoggers_J cfg _ _ (trySend_J (fwdTop_J cfg) h u _)
 
+theorem infoOf_J {s : State} (h : J s) (m : Module) : J (infoOf cfg s m) := by
+  unfold infoOf; exact fwdTop_J cfg _ _ (logAt_J (fwdTop_J cfg) h 10)
+
 theorem sendInfo_J {s : State} (h : J s) (u : Nat) : J (sendInfo cfg s u) := by
   unfold sendInfo
   cases s.find u with
   | none => exact h
-  | some m => exact fwdTop_J cfg _ _ h
+  | some m => exact infoOf_J cfg h m
 
 theorem setReq_closed (buf : List Nat) (hd : Hdr) (x : Module) :
     (setReq cfg buf hd x).uid = x.uid ∧ (setReq cfg buf hd x).closed = x.closed := by
   unfold setReq; split <;> exact ⟨rfl, rfl⟩
+
+theorem clashLoop_J (me : Module) : ∀ (os : List Module) {s : State}, J s → J (clashLoop cfg me os s).1
+  | [], _, h => h
+  | o :: rest, s, h => by
+    unfold clashLoop
+    split
+    · exact h
+    · apply clashLoop_J me rest
+      split
+      · exact h
+      · exact logAt_J (fwdTop_J cfg) h 10
 
 theorem connect_J {s : State} (h : J s) (u : Nat) (hd : Hdr) : J (connectModule cfg s u hd).1 := by
   unfold connectModule
@@ -339,9 +353,15 @@ theorem connect_J {s : State} (h : J s) (u : Nat) (hd : Hdr) : J (connectModule 
       split
       · split
         · exact removeModule_J (fwdTop_J cfg) (logAt_J (fwdTop_J cfg) h1 40) u
-        · split
-          · exact removeModule_J (fwdTop_J cfg) (logAt_J (fwdTop_J cfg) h1 40) u
-          · exact J_same (J_upd h1 u _ (by intro _; rfl) (by intro _; rfl)) rfl rfl rfl
+        · have hl := clashLoop_J cfg (setAll cfg s.buf hd nm (lookupMod s u))
+            ((s.upd u (setAll cfg s.buf hd nm)).mods.filter (·.uid != u)) h1
+          generalize clashLoop cfg (setAll cfg s.buf hd nm (lookupMod s u))
+            ((s.upd u (setAll cfg s.buf hd nm)).mods.filter (·.uid != u)) (s.upd u (setAll cfg s.buf hd nm)) = r at hl
+          obtain ⟨s2, cl⟩ := r
+          dsimp only at hl ⊢
+          split
+          · exact removeModule_J (fwdTop_J cfg) (logAt_J (fwdTop_J cfg) hl 40) u
+          · exact J_same (J_upd hl u _ (by intro _; rfl) (by intro _; rfl)) rfl rfl rfl
       · split
         · exact removeModule_J (fwdTop_J cfg) (logAt_J (fwdTop_J cfg) h1 40) u
         · exact J_same (J_upd (J_same h1 (s' := { (s.upd u (setAll cfg s.buf hd nm)) with nextDyn := _ }) rfl rfl rfl)
@@ -353,8 +373,22 @@ theorem J_setSubs {s : State} (h : J s) (i : List (Int × List Nat)) (u : Nat) (
   have h0 : J ({ s with idx := i } : State) := J_same h rfl rfl rfl
   exact J_upd h0 u (fun m => { m with subs := l }) (by intro _; rfl) (by intro _; rfl)
 
+theorem addSubCore_J {s : State} (h : J s) (u : Nat) (t : Int) : J (addSubCore cfg s u t) := by
+  unfold addSubCore
+  dsimp only
+  split
+  · exact J_setSubs h _ u _
+  · split
+    · exact h
+    · exact J_setSubs h _ u _
+
 theorem addSub_J {s : State} (h : J s) (u : Nat) (t : Int) : J (addSub cfg s u t) := by
-  unfold addSub
+  unfold addSub; split
+  · exact logAt_J (fwdTop_J cfg) (addSubCore_J cfg h u t) 10
+  · exact addSubCore_J cfg h u t
+
+theorem removeSubCore_J {s : State} (h : J s) (u : Nat) (t : Int) : J (removeSubCore cfg s u t) := by
+  unfold removeSubCore
   dsimp only
   split
   · exact J_setSubs h _ u _
@@ -363,13 +397,9 @@ theorem addSub_J {s : State} (h : J s) (u : Nat) (t : Int) : J (addSub cfg s u t
     · exact J_setSubs h _ u _
 
 theorem removeSub_J {s : State} (h : J s) (u : Nat) (t : Int) : J (removeSub cfg s u t) := by
-  unfold removeSub
-  dsimp only
-  split
-  · exact J_setSubs h _ u _
-  · split
-    · exact h
-    · exact J_setSubs h _ u _
+  unfold removeSub; split
+  · exact logAt_J (fwdTop_J cfg) (removeSubCore_J cfg h u t) 10
+  · exact removeSubCore_J cfg h u t
 
 theorem process_J {s : State} (h : J s) (u : Nat) (hd : Hdr) : J (processMessage cfg s u hd) := by
   unfold processMessage
@@ -380,7 +410,7 @@ theorem process_J {s : State} (h : J s) (u : Nat) (hd : Hdr) : J (processMessage
     obtain ⟨s1, okb⟩ := r
     dsimp only
     split
-    · exact logAt_J (fwdTop_J cfg) (fwdTop_J cfg _ _ (sendAck_J cfg hc u)) 20
+    · exact logAt_J (fwdTop_J cfg) (infoOf_J cfg (sendAck_J cfg hc u) _) 20
     · exact hc
   · split
     · exact logAt_J (fwdTop_J cfg) (removeModule_J (fwdTop_J cfg) h u) 20
@@ -391,10 +421,10 @@ theorem process_J {s : State} (h : J s) (u : Nat) (hd : Hdr) : J (processMessage
         · split
           · split
             · exact removeModule_J (fwdTop_J cfg) (logAt_J (fwdTop_J cfg) h 40) u
-            · exact sendInfo_J cfg (logAt_J (fwdTop_J cfg) (J_upd h u _ (by intro _; rfl) (by intro _; rfl)) 20) u
+            · exact infoOf_J cfg (logAt_J (fwdTop_J cfg) (J_upd h u _ (by intro _; rfl) (by intro _; rfl)) 20) _
           · split
             · exact sendInfo_J cfg (J_upd h u _ (by intro _; rfl) (by intro _; rfl)) u
-            · exact fwdTop_J cfg _ _ h
+            · exact fwdTop_J cfg _ _ (logAt_J (fwdTop_J cfg) h 10)
 
 theorem readOne_J {s : State} (h : J s) (r : Read) : J (readOne cfg s r) := by
   unfold readOne
@@ -432,7 +462,7 @@ theorem foldl_fwd_J : ∀ (fs : List Frame) {s : State}, J s → J (fs.foldl (fw
 
 theorem infoAll_J : ∀ (ms : List Module) {s : State}, J s → J (infoAll cfg ms s)
   | [], _, h => h
-  | m :: rest, s, h => by unfold infoAll; exact infoAll_J rest (fwdTop_J cfg _ _ h)
+  | m :: rest, s, h => by unfold infoAll; exact infoAll_J rest (infoOf_J cfg h _)
 
 theorem isOpen_append (s : State) (x : Module) (v : Nat) :
     isOpen { s with mods := s.mods ++ [x] } v = (isOpen s v || (x.uid == v && !x.closed)) := by
@@ -487,12 +517,12 @@ theorem ticks_J {s : State} (h : J s) : J (ticks cfg s) := by
   have h2 : J (if s1.now - s1.tTraffic > 1000 then sendTraffic cfg s1 else s1) := by
     split
     · unfold sendTraffic
-      exact J_same (foldl_fwd_J cfg _ (J_same h1 (s' := { s1 with inTraffic := true }) rfl rfl rfl)) rfl rfl rfl
+      exact J_same (foldl_fwd_J cfg _ (logAt_J (fwdTop_J cfg) (J_same h1 (s' := { s1 with inTraffic := true }) rfl rfl rfl) 10)) rfl rfl rfl
     · exact h1
   generalize (if s1.now - s1.tTraffic > 1000 then sendTraffic cfg s1 else s1) = s2 at h2
   split
   · unfold sendActive
-    exact J_same (fwdTop_J cfg _ _ (infoAll_J cfg _ h2)) rfl rfl rfl
+    exact J_same (fwdTop_J cfg _ _ (infoAll_J cfg _ (logAt_J (fwdTop_J cfg) h2 10))) rfl rfl rfl
   · exact h2
 
 theorem step_J {s : State} (h : J s) (r : Round) : J (step cfg s r) := by
